@@ -51,7 +51,8 @@ def renderChan (i : Nat) (c : Chan) : String :=
       joinOr (sortStrs (c.view.map fun p => p.1 ++ ":" ++ "+".intercalate p.2)) ","
     else "-"
   let ws := joinOr (sortStrs (c.subs.map fun p => p.1.typ ++ "." ++ p.1.name ++ ":" ++ showWS p.2)) "+"
-  s!"s{i}={c.gen}/{c.streams}/{state}{flags}/u{unread}/view={view}/ws={ws}"
+  let refs := joinOr ((sortNats c.refs).map toString) "+"
+  s!"s{i}={c.gen}/{c.streams}/{state}{flags}/u{unread}/x{refs}/view={view}/ws={ws}"
 
 def renderRes (p : Key × RState) : String :=
   let r := p.2
@@ -62,10 +63,14 @@ def renderRes (p : Key × RState) : String :=
   let ch := joinOr ((sortNats r.chans).map toString) "+"
   s!"{p.1.typ}.{p.1.name}[w={w};c={c};st={showStatus r.status};v={v};e={e};di={if r.delIgnored then 1 else 0};ch={ch}]"
 
+def renderAuth (pre : String) (a : Auth) : String :=
+  let act := match a.active with | some x => toString x | none => "-"
+  let opn := joinOr ((sortNats a.opened).map toString) "+"
+  s!"{pre}act={act} {pre}open={opn} {pre}res={joinOr (sortStrs (a.res.map renderRes)) ","}"
+
 def render (s : Sys) : String :=
-  let act := match s.auth.active with | some a => toString a | none => "-"
   let srv := " ".intercalate ((List.range s.chans.length).map fun i => renderChan i (getChan s i))
-  s!"cb={renderCbs s.cbs} act={act} {srv} res={joinOr (sortStrs (s.auth.res.map renderRes)) ","}"
+  s!"cb={renderCbs s.cbs} {srv} {renderAuth "" s.auth} {renderAuth "b" s.authB}"
 
 def parseEntries (e : String) : Option (List (String × Upd)) :=
   if e = "-" then some [] else
@@ -90,6 +95,7 @@ def parseOp (n : Nat) (fs : List String) : Option Op :=
   | ["down", i] => (srvOf i).map Op.down
   | ["up", i] => (srvOf i).map Op.up
   | ["sleep", ms] => ms.toNat?.map Op.sleep
+  | ["nobuild", l] => some (.nobuild (if l = "-" then [] else (l.splitOn "+").filterMap String.toNat?))
   | ["hold"] => some .hold
   | ["release"] => some .release
   | ["close"] => some .close
